@@ -9,7 +9,7 @@ Line-protocol driver for C16.
                                                  vulns = ids still/newly present after the patch; absent task = E
       schedule = task/task/…                     the order in which results were delivered (by task value)
     reply: res=<patches|unspecified> done=<0|1> spec=<patches> cmpeq=<0|1> order=<0|1> n=<#collected> tasks=<#delivered>
-      patches  = patch;patch;…   patch = name:from:to:tr,…~fixed,…~introduced,…   (hex, `-` = empty)
+      patches  = patch;patch;…   patch = name:from:to:tr:alias,…~fixed,…~introduced,…   (hex, `-` = empty; alias = dep.KnownAs of the update's Type)
       spec     = result of the breadth-first closure (schedule-free specification)
       cmpeq    = CmpEqImpliesEq holds for the collected patches
       order    = every target version parses or none does (hypothesis of C16_patchcmp_order); when 0 the comparator is
@@ -66,7 +66,7 @@ def patchFnOf (oldReqs : List Req) (oldVulns : List Str) (tbl : List (Task × En
   | _ => none
 
 def showPatch (p : Patch) : String :=
-  joinWith "," (p.updates.map fun u => s!"{hexOf u.name}:{hexOf u.vfrom}:{hexOf u.vto}:{boolStr u.transitive}") ++ "~" ++
+  joinWith "," (p.updates.map fun u => s!"{hexOf u.name}:{hexOf u.vfrom}:{hexOf u.vto}:{boolStr u.transitive}:{hexOf u.ty}") ++ "~" ++
   joinWith "," (p.fixed.map hexOf) ++ "~" ++ joinWith "," (p.introduced.map hexOf)
 
 def showPatches (ps : List Patch) : String := joinWith ";" (ps.map showPatch)
